@@ -190,6 +190,7 @@ def run(ctx):
     ownership_table(ctx, "R13-i")
     resolution_errors_not_overwritten(ctx, "R13-j")
     paths_compared_by_component(ctx, "R13-k")
+    only_a_missing_default_file_is_forgiven(ctx, "R13-l")
 
     D = r.rule("R13-d", "ParseSess::default_submod_path retries in the declaring file's own directory only for "
                         "ModError::FileNotFound with a relative owner, every other error is passed on unchanged; the module map "
@@ -595,3 +596,45 @@ def paths_compared_by_component(ctx, rid):
                         "a decision derives from `%s`: path components are compared as text" % short(c.name).rsplit("::", 1)[-1],
                         [c.loc()])
     r.floor(rid, n, 10, "module-resolution functions")
+
+
+def only_a_missing_default_file_is_forgiven(ctx, rid):
+    """R13-l / R05-m: when cfg_attr paths exist, the only failure of the default-file lookup that is passed over is "not found" """
+    from absint import explore, vkey, TooManyPaths
+    p, r = ctx.p, ctx.r
+    r.rule(rid, "modules::ModResolver::find_external_module: on every path on which `default_submod_path` answered Err and the "
+                "function nevertheless returns Ok (the `#[cfg_attr(.., path = ..)]` alternatives are taken instead), the error has "
+                "been identified as `ModError::FileNotFound`.  Two candidates for the default file (`m.rs` and `m/mod.rs`), a module "
+                "in a block, a circular inclusion are errors whatever alternatives exist: rustc rejects the crate, and a run that "
+                "passes them over formats the other files and exits 0")
+    f = p.named("find_external_module", within="modules::ModResolver")
+    if f is None:
+        r.undecidable(rid, "ModResolver::find_external_module not found")
+        return
+    try:
+        paths = explore(f, pure=lambda c: True, max_paths=50000, program=p)
+    except TooManyPaths as e:
+        r.undecidable(rid, str(e))
+        return
+    n = 0
+    bad = []
+    for pa in paths:
+        if pa.end != "ret" or pa.ret is None or not vkey(pa.ret).startswith("Ok("):
+            continue
+        def direct(k):
+            return k.startswith("discr(") and k[6:].split("(", 1)[0].endswith("default_submod_path")
+        failed = [k for k, v in pa.decisions if direct(k) and isinstance(v, tuple) and v[1] == "Err" and " as Err" not in k]
+        if not failed:
+            continue
+        n += 1
+        kinds = [v for k, v in pa.decisions if direct(k) and k.endswith(" as Err.0)") and isinstance(v, tuple)]
+        ok = any(v[0] == "variant" and v[1] == "FileNotFound" for v in kinds)
+        if not ok:
+            bad.append(kinds)
+    r.instance(rid, "find_external_module: Ok after a failed default lookup only for FileNotFound", "violation" if bad else "ok",
+               "%s:%d" % (f.file, f.line), "%d such paths" % n)
+    if bad:
+        r.violation(rid, "find_external_module passes over a failure of the default-file lookup other than FileNotFound",
+                    "a path returns Ok although default_submod_path failed and the error was %s" %
+                    ("never examined" if not bad[0] else [v[1] for v in bad[0]]), ["%s:%d" % (f.file, f.line)])
+    r.floor(rid, n, 1, "Ok-returning paths of find_external_module after a failed default lookup")
